@@ -13,7 +13,7 @@ import (
 
 func init() {
 	register(&Prop{ID: "C06", Run: runC06, MinNontrivial: 500,
-		Rule:        "cases = IdP-signed responses whose first assertion carries 0-4 AudienceRestrictions x 0-4 Audiences each drawn from {exact, case variant, trailing slash, space-padded, prefix, unrelated, empty}, OneTimeUse present/absent, ProxyRestriction absent or Count in {absent,0,1,7,2^31-1} x 0-3 audiences; configured audience in {URI, URI/, \"\"}; later assertions carry opposite conditions to show only the first counts; oracle: NotInAudience iff some restriction has no Audience byte-equal to the configured URI, OneTimeUse iff the element is present, ProxyRestriction summary equals the signed Count and Audience list or is nil; non-trivial = accepted and summarised; distinct by the conditions tuple; configured audiences containing list/pattern/URL metacharacters with Audiences that are pieces, supersets or decoded forms of them; first assertions without an AuthnStatement; Audiences near the configured value (percent-encoded, entity-escaped, ...) or equal to another configured field; foreign-namespace Audience look-alikes; a second Conditions element; Audience values interrupted by a processing instruction; empty or inverted Conditions windows; Count literals at and beyond the int64 / uint64 limits, signed, zero-padded; calls of the metadata and request builders on the provider before validating",
+		Rule:        "cases = IdP-signed responses whose first assertion carries 0-4 AudienceRestrictions x 0-4 Audiences each drawn from {exact, case variant, trailing slash, space-padded, prefix, unrelated, empty}, OneTimeUse present/absent, ProxyRestriction absent or Count in {absent,0,1,7,2^31-1} x 0-3 audiences; configured audience in {URI, URI/, \"\"}; later assertions carry opposite conditions to show only the first counts; oracle: NotInAudience iff some restriction has no Audience byte-equal to the configured URI, OneTimeUse iff the element is present, ProxyRestriction summary equals the signed Count and Audience list or is nil; non-trivial = accepted and summarised; distinct by the conditions tuple; configured audiences containing list/pattern/URL metacharacters with Audiences that are pieces, supersets or decoded forms of them; first assertions without an AuthnStatement; Audiences near the configured value (percent-encoded, entity-escaped, ...) or equal to another configured field; foreign-namespace Audience look-alikes; a second Conditions element; Audience values interrupted by a processing instruction; empty or inverted Conditions windows; Count literals at and beyond the int64 / uint64 limits, signed, zero-padded; calls of the metadata and request builders on the provider before validating; a restriction whose single value is the previous restriction's values joined by a separator; 60-140 restrictions with an unsatisfied one near the end",
 		Assumptions: []string{"comparison is byte equality on the decoded text", "the warning is about the first assertion only (as the property states)"}})
 }
 
@@ -118,6 +118,20 @@ func runC06(c *mon.Ctx) {
 					matched = matched || au == cfgAud
 				}
 			}
+			if i > 0 && r.IntN(6) == 0 && len(a0.Cond.Restrictions[i-1]) > 0 {
+				// a restriction whose single value is the previous restriction's values strung together (by '|', ',', a
+				// blank, a line feed, a control character, nothing): one value that is not the audience - unless the
+				// string happens to equal it
+				prev := a0.Cond.Restrictions[i-1]
+				var plain []string
+				for _, p := range prev {
+					plain = append(plain, sim.StripMarks(p))
+				}
+				j := strings.Join(plain, pick(r, []string{"|", "|", ",", " ", "\n", "\t", "", ";", "||"}))
+				if !strings.ContainsRune(j, 0) {
+					auds, matched = []string{j}, j == cfgAud
+				}
+			}
 			if auds == nil {
 				auds = []string{}
 			}
@@ -125,6 +139,18 @@ func runC06(c *mon.Ctx) {
 				wantNotIn = true
 			}
 			a0.Cond.Restrictions = append(a0.Cond.Restrictions, auds)
+		}
+		if r.IntN(12) == 0 {
+			// many restrictions (every one of them has to name the SP): 60 to 140 satisfied ones, then perhaps one that is not
+			a0.Cond.Restrictions, wantNotIn, foreign = nil, false, false
+			for i := 60 + r.IntN(81); i > 0; i-- {
+				a0.Cond.Restrictions = append(a0.Cond.Restrictions, []string{cfgAud})
+			}
+			if r.IntN(3) != 0 {
+				at := len(a0.Cond.Restrictions) - r.IntN(3)
+				a0.Cond.Restrictions = append(a0.Cond.Restrictions[:at], append([][]string{{cfgAud + "/other"}}, a0.Cond.Restrictions[at:]...)...)
+				wantNotIn = true
+			}
 		}
 		window := "inside"
 		switch r.IntN(5) {
